@@ -12,10 +12,13 @@ if os.path.exists(p):
         summary[name]=rest
 rows=[]
 for name in sorted(os.listdir(f'{V}/seeded'), key=lambda s:(s.split('-')[0], s)):
-    m=re.match(r'^(C\d+b?)-(\d+)$',name)
+    m=re.match(r'^(C\d+[a-z]?)-(\d+)$',name)
     if not m: continue
-    idd,n=m.group(1),m.group(2); prop=idd.rstrip('b')
+    idd,n=m.group(1),m.group(2); prop=re.sub(r'[a-z]$','',idd)
     d=f'{V}/seeded/{name}'; inc=f'{V}/seeded_incoming/{idd}/{n}'
+    vl0=f'{d}/verify.log'
+    if os.path.exists(vl0) and 'CONFIRMED' not in open(vl0).read() and not os.path.exists(f'{d}/meta.json'):
+        continue  # delivered but not confirmed: not a kept change
     ported=os.path.exists(f'{d}/patch.diff') and os.path.exists(f'{inc}/patch.diff') and open(f'{d}/patch.diff').read()!=open(f'{inc}/patch.diff').read()
     if not os.path.exists(f'{d}/patch.diff') and os.path.exists(f'{inc}/patch.diff'):
         shutil.copy(f'{inc}/patch.diff',f'{d}/patch.diff')
@@ -39,7 +42,7 @@ for name in sorted(os.listdir(f'{V}/seeded'), key=lambda s:(s.split('-')[0], s))
       'origin':'fresh sub-agent given only the property text and a scratch git worktree of /repo',
       'ported_to_current_tree':ported,
       'confirmed_by_me':{'how':'tools/verify_mutation.sh in a scratch worktree outside /repo and /verif: commit the change, run the existing suite (nextest, pty tests excluded, known pre-existing failures tolerated), apply the demonstration, run it with the change (must fail) and with the change reverted (must pass)','result':verify},
-      'detection':{'how':f'tools/try_mutation.sh seeded/{name}/patch.diff <check> quick  (git -C /repo apply, ./check, git -C /repo checkout -- .)','result':det},
+      'detection':{'how':f'tools/try_mutation.sh seeded/{name}/patch.diff <check> quick  (git -C /repo apply, ./check, git -C /repo checkout -- .), or the same in a scratch lane (tools/lane.sh try <k> ...)','result':det},
     }
     json.dump(meta,open(f'{d}/meta.json','w'),indent=1)
     rows.append((name,title,verify,det))
